@@ -383,8 +383,22 @@ class CaT(Channel):
         v_u1 = v + vx + 81.0
         u_inf = 1.0 / (1.0 + save_exp(v_u1 / 4))
 
-        tau_u = (30.8 + (211.4 + save_exp((v + vx + 113.2) / 5.0))) / (
-            3.7 * (1 + save_exp((v + vx + 84.0) / 3.2))
+        # Both exponentials grow with `v`. Where the one in the denominator exceeds 1,
+        # divide numerator and denominator by it: all arguments then stay bounded and
+        # nothing has to be clipped (clipping both at `exp(20)` froze `tau_u` for
+        # `v + vx > -20 mV`). The inner `where`s keep the unselected branch finite.
+        a1 = (v + vx + 113.2) / 5.0
+        a2 = (v + vx + 84.0) / 3.2
+        large = a2 > 0.0
+        a1_small = jnp.where(large, 0.0, a1)
+        a2_small = jnp.where(large, 0.0, a2)
+        a2_large = jnp.where(large, a2, 0.0)
+        a1_minus_a2 = jnp.where(large, a1 - a2, 0.0)
+        tau_u = jnp.where(
+            large,
+            ((30.8 + 211.4) * jnp.exp(-a2_large) + jnp.exp(a1_minus_a2))
+            / (3.7 * (jnp.exp(-a2_large) + 1.0)),
+            (30.8 + (211.4 + jnp.exp(a1_small))) / (3.7 * (1.0 + jnp.exp(a2_small))),
         )
 
         return u_inf, tau_u
